@@ -1,7 +1,7 @@
 // C20 — every failure surfaces as a catchable exception: no terminate, no leak.
 // Every case runs in a forked child (engine --isolate): std::terminate, abort, a sanitizer report, a CPU-budget breach or a leak at exit
 // of the child are failures by themselves; inside the child the oracle checks what reaches the caller.
-// Fault classes: input ending at byte k (memory and three kinds of streams), the k-th operator new throwing bad_alloc (once or from
+// Fault classes: input ending at byte k (memory, three kinds of streams and a file), the k-th operator new throwing bad_alloc (once or from
 // then on), an input streambuf throwing / failing at byte k (with and without the stream's exception mask), an output streambuf
 // failing or throwing at byte k, and errors the library raises itself midway through a save.
 #include "common/arch.h"
@@ -102,6 +102,7 @@ template <class A, class T> void load_any(T& target, const std::string& bytes, i
 	if (medium == 0) { LoadObject<A>(target, bytes, opt); return; }
 	if (medium == 1) { std::istringstream is(bytes); LoadObject<A>(target, is, opt); return; }
 	if (medium == 2) { ShortReadBuf b(bytes, chunk); std::istream is(&b); LoadObject<A>(target, is, opt); return; }
+	if (medium == 4) { ScratchFile f; { std::ofstream out(f.path, std::ios::binary | std::ios::trunc); out.write(bytes.data(), static_cast<std::streamsize>(bytes.size())); } LoadObjectFromFile<A>(target, f.path, opt); return; }   // a file accepts seeking behind its end
 	NonSeekableBuf b(bytes, chunk); std::istream is(&b); LoadObject<A>(target, is, opt);
 }
 
@@ -112,7 +113,7 @@ struct Partial { int64_t a = 0; std::string o; template <class A> void Serialize
 struct Leading { int64_t a = 0; std::string s; template <class A> void Serialize(A& ar) { ar << KeyValue("a", a) << KeyValue("s", s); } };
 template <class A, class T, class TTarget = T, class G> void run_trunc(vf::Ctx& c, int archId, G gen) {
 	T v = gen(c.src); const std::string full = save_ref<A>(v); if (full.empty()) c.discard("reference save failed");
-	const int medium = static_cast<int>(c.src.draw(4)); const size_t chunk = 1 + c.src.draw(40); SerializationOptions opt; gen_policies(c.src, opt);
+	const int medium = static_cast<int>(c.src.draw(5)); const size_t chunk = 1 + c.src.draw(40); SerializationOptions opt; gen_policies(c.src, opt);
 	size_t from, to; gen_span(c.src, full.size(), from, to); c.nontrivial = to > from && to > 1; c.label(vf::cat("medium=", medium)); if (to - from == full.size()) c.label("all-positions");
 	size_t rejected = 0, accepted = 0;
 	for (size_t k = from; k < to; k++) {
